@@ -392,11 +392,43 @@ func propC06(r *Run) {
 					}
 					w.addClient(plan)
 				}
+				// logins in flight at the same time: a session is issued exactly for the requests that
+				// carry a right password, and names the user and admin status of that very request
+				type lexp struct {
+					c     *Call
+					right bool
+					admin bool
+				}
+				var logins []lexp
+				for i, iN := 0, r.Choose("conc-logins", 5); i < iN; i++ {
+					u := names[r.Choose("conc-login-user", len(names))]
+					ex, adm := exists(u)
+					p := pw[u]
+					right := ex
+					if r.Choose("conc-login-right", 2) == 0 {
+						p, right = "not-the-password", false
+					}
+					c := &Call{Kind: "authenticate", Via: "api", Agent: a.idx, User: u, PW: p}
+					logins = append(logins, lexp{c, right, adm})
+					w.addClient([]*Call{c})
+				}
 				w.runLoop(loopOpts{maxSteps: 6000, wClient: 2, wLoop: 5})
 				if wedge := w.settle(nil); wedge != "" {
 					r.FailOther("C10", wedgeSignature(wedge), "%s", wedge)
 					return
 				}
+				for _, l := range logins {
+					if (l.c.Token != "") != l.right {
+						r.Fail("token/issued-without-password", "with %d logins in flight, %s got status %d, session issued: %v; its own password is right: %v", len(logins), l.c, l.c.Status, l.c.Token != "", l.right)
+					}
+					if l.c.Token != "" && l.c.IsAdmin != l.admin {
+						r.Fail("token/wrong-admin-flag", "with %d logins in flight, %s is answered admin=%v, the store says %v", len(logins), l.c, l.c.IsAdmin, l.admin)
+					}
+					if l.c.Token != "" {
+						toks = append(toks, &tokInfo{text: l.c.Token, user: l.c.User, admin: l.admin, at: time.Now(), instance: instance})
+					}
+				}
+				r.Add("probe:concurrent-logins", len(logins))
 				for _, e := range exps {
 					if e.c.Status == -1 {
 						r.Fail("handler/panic/concurrent", "%s makes the handler panic: %s", e.c, truncateA(e.c.Body, 200))
